@@ -27,9 +27,9 @@ Record flags := mkflags {
   f_relall : bool;  (* fixed in 88d6de6: release by address from every pool / first containing pool *)
   f_window : bool;  (* fixed in cd04fe0: bulk sync replayed the retained backlog window even when it did not reach
                        back to what the standby already has *)
-  f_lagdel : bool;  (* OPEN (bulk-sync-cannot-convey-missed-delete): a bulk sync to a standby that has state never
-                       removes a session whose DELETE the standby missed (pages carry bare checkpoints; the
-                       snapshot has no "replace all" meaning) *)
+  f_lagdel : bool;  (* OPEN (bulk-sync-lagging-standby-not-converging): a bulk sync to a standby that has state and is
+                       behind replays the window / stores the snapshot on top of what the standby has: a session
+                       whose DELETE it missed stays, an address that changed hands may not be re-reserved *)
   f_race : bool     (* OPEN (sender-seq-push-not-atomic): HandleEvent assigns the sequence number, pushes to the
                        backlog and enqueues as separate steps of concurrently running handlers *)
 }.
@@ -492,25 +492,14 @@ Fixpoint iter_n {A} (n : nat) (f : A -> A) (x : A) : A := match n with O => x | 
 Definition snapshot_cps (y : sys) (srg : N) : list checkpoint :=
   map (fun ks => s2c (snd ks)) (filter (fun ks => N.eqb (s_srg (snd ks)) srg) (y_live y)).
 (* a snapshot means "these are all the sessions of the SRG": the repaired standby first drops (and releases) every
-   stored session of the SRG that is not in it; /repo HEAD (f_lagdel) keeps them *)
-Definition purge (fl : flags) (rc : receiver) (srg : N) (cps : list checkpoint) : receiver :=
-  fold_left (fun r kc =>
-               if N.eqb (c_srg (snd kc)) srg && negb (existsb (fun c => keyeqb (fst kc) (cp_key c)) cps)
-               then recv_delete fl r (snd kc) else r)
-            (rc_store rc) rc.
+   stored session of the SRG, then stores the snapshot (no order dependence between a session that gave an address up
+   and the one that got it); /repo HEAD (f_lagdel) keeps what it has *)
+Definition purge (fl : flags) (rc : receiver) (srg : N) : receiver :=
+  fold_left (fun r kc => if N.eqb (c_srg (snd kc)) srg then recv_delete fl r (snd kc) else r) (rc_store rc) rc.
 Definition recv_snapshot (fl : flags) (rc : receiver) (srg seq : N) (cps : list checkpoint) : receiver :=
-  let rc0 := if f_lagdel fl then rc else purge fl rc srg cps in
+  let rc0 := if f_lagdel fl then rc else purge fl rc srg in
   let rc1 := fold_left (recv_update fl) cps rc0 in
   if N.ltb 0 seq then mkrecv (aset N.eqb srg seq (rc_last rc1)) (rc_store rc1) (rc_reg rc1) else rc1.
-
-(* a DELETE behind the standby's position that is the last word on its session: a page of bare checkpoints cannot
-   convey it *)
-Fixpoint pending_delete (last : N) (l : list req) : bool :=
-  match l with
-  | [] => false
-  | q :: r => (N.ltb last (q_seq q) && negb (has_later (cp_key (q_cp q)) r)
-               && match q_act q with ADelete => true | _ => false end) || pending_delete last r
-  end.
 
 Definition bulk_op (fl : flags) (churn : sys -> sys) (y : sys) (srg : N) (k pagesz : nat) : sys :=
   match aget N.eqb srg (y_sender y) with
@@ -523,9 +512,10 @@ Definition bulk_op (fl : flags) (churn : sys -> sys) (y : sys) (srg : N) (k page
               let (qs, p) := somes l in
               if p then mksys (y_sender y) (y_recv y) (y_sent y) (y_next y) (y_live y) (S (y_panics y)) else
               let last := last_of (y_recv y) srg in
-              if f_window fl || (N.leb os (last + 1) && (f_lagdel fl || negb (pending_delete last qs))) then
-                (* the window reaches back to what the standby has (and, repaired, holds no DELETE the standby still
-                   needs): replay it *)
+              if f_window fl || (N.leb os (last + 1) && (f_lagdel fl || N.eqb last 0 || N.leb ns last)) then
+                (* the window reaches back to what the standby has — and, repaired, the standby is fresh or caught up
+                   (a lagging standby gets the snapshot: bare checkpoints can convey neither a DELETE nor the order in
+                   which an address changed hands): replay it *)
                 let y1 := iter_n (bulk_pages fl qs pagesz * k) churn y in
                 mksys (y_sender y1) (recv_bulk fl (y_recv y1) srg qs) (y_sent y1)
                       (aset N.eqb srg (Nat.max (next_of y1 srg) (N.to_nat ns)) (y_next y1)) (y_live y1) (y_panics y1)
